@@ -536,6 +536,25 @@ class FnOverlay:
         fo.insert(e, "{ " + body + " }")
         return self
 
+    def replace_all(self, old, new, rule):
+        """Replace EVERY occurrence of an exactly-anchored expression in the fn (at least one must exist)."""
+        fo = self.fo
+        bs, be = self._span()
+        body = fo.data[bs:be]
+        ob = old.encode("utf-8")
+        n = 0
+        i = body.find(ob)
+        while i >= 0:
+            fo.replace(bs + i, bs + i + len(ob), new)
+            n += 1
+            i = body.find(ob, i + len(ob))
+        if n == 0:
+            fo.records.append({"file": fo.rel, "kind": f"{rule}: NOT APPLIED (`{_norm_ws(old)[:80]}` not present in {self.path})"})
+            return self
+        fo.records.append({"file": fo.rel, "kind": f"{rule}: {n}x `{_norm_ws(old)[:100]}` => `{_norm_ws(new)[:100]}` in {self.path}"})
+        fo.ov.rewrites.append({"rule": rule, "fn": self.path, "old": _norm_ws(old), "new": _norm_ws(new), "count": n})
+        return self
+
     def demut_self(self):
         """D7: `fn f(mut self, ..) { B }` => `fn f(self, ..) { let mut slf = self; B[self := slf] }`.
         Verus does not support `mut self`; the rewrite is an alpha-renaming of the receiver binding."""
